@@ -920,6 +920,11 @@ def get_processed_input(key, mapper, the_dict, *, enable_undefined, use_strict_m
         return [v for v in vals if v != SENTITNEL]
 
     key_mapper = mapper[key]
+    if key_mapper is DoNotSerialize:
+        # the field is never written: read it under its own name, unless that name is
+        # the mapped key of another field
+        taken = any(k != key and isinstance(v, str) and v == key for k, v in mapper.items())
+        return None if taken else the_dict.get(key)
     if isinstance(key_mapper, (FunctionCall,)):
         args = _get_arg_list(key_mapper) if key_mapper.args else [the_dict.get(key)]
         processed_input = key_mapper.func(*args) if args else None
